@@ -40,7 +40,7 @@ RULES = [
     Rule('C01.R1c', 'the byte count of every FileAndMemReader::read fits its destination', 20),
     Rule('C01.R2', 'length checks and seek targets are computed without pointer or 32-bit overflow', 6),
     Rule('C01.R3', 'sizes from >16-bit file fields are compared with the remaining source before allocating', 2),
-    Rule('C01.R3b', 'an allocation size computed as an unsigned difference cannot wrap: rest-of-file idiom (tell, seek to END, tell) or dominated by a comparison of the two operands', 2),
+    Rule('C01.R3b', 'an allocation size computed as an unsigned difference cannot wrap: rest-of-file idiom (tell, seek to END, tell) with a reader whose seek clamps the cursor in both of its branches, or dominated by a comparison of the two operands', 3),
     Rule('C01.R3c', 'the MIDI channel table grows by one block per device name only up to a fixed number of devices', 1),
     Rule('C01.R4', 'the song index is clamped from both sides before subscripting the song list', 2),
     Rule('C01.R5', 'no assert / abort / throw on input-dependent conditions in loader and converter code', 3),
@@ -48,6 +48,7 @@ RULES = [
     Rule('C01.R7', 'fraction denominators built from file fields are non-zero', 4),
     Rule('C01.R8', 'iterator holders are emptied with the track data; loop-stack level stays >= -1', 5),
     Rule('C01.R9', 'fixed-extent indexes in loader / converter code are in range', 40),
+    Rule('C01.R12', 'a pointer that walks a fixed-size local byte array advances by at most the extent on every path (callees summarised; shift loops bounded)', 1),
     Rule('C01.R11', 'every %s argument of a formatted message is a NUL-terminated string', 8),
     Rule('C01.R10', 'every constant subscript of an event\'s data bytes is justified by the event type, by the statements that built the bytes, or by a size test', 35),
 ]
@@ -105,6 +106,7 @@ def analyse(facts, tier):
     obls += r8(facts)
     obls += r10(facts)
     obls += r11_percent_s(facts)
+    obls += r12(facts)
     res = e2prog.analyse_program(facts)
     obls += r7(facts, res)
     obls += r9(facts, res)
@@ -558,6 +560,57 @@ def r3(facts):
     return out
 
 
+_seek_clamp_cache = {}
+
+
+def seek_clamps(facts):
+    """(ok, why, loc): FileAndMemReader::seek leaves the cursor at or before the end of the data in both of its branches.
+    FILE branch: the caller's fseek is followed by `T = ftell; fseek(0, SEEK_END)`, and the only seek after that goes back to T under
+    `T < ftell()`.  Memory branch: a store m_mp_tell = m_mp_size under m_mp_tell > m_mp_size follows the switch."""
+    if facts.view in _seek_clamp_cache:
+        return _seek_clamp_cache[facts.view]
+    fn = None
+    for g in facts.all_fns():
+        if g.name.endswith('FileAndMemReader::seek') and g.tree is not None:
+            fn = g
+    if fn is None:
+        raise build.AnalysisBroken('C01.R3b: FileAndMemReader::seek not found')
+    pids = {p_['id'] for p_ in fn.params}
+    fseeks = [(b, j, st, x) for b, j, st in fn.cfg.stmts() for x in calls_in(st['s']) if short(callee_name(x)) == 'fseek' and len(x.get('a', [])) == 3]
+    user = [c for c in fseeks if strip(c[3]['a'][1]).get('id') in pids]
+    to_end = [c for c in fseeks if const_of(c[3]['a'][1]) == 0 and const_of(c[3]['a'][2]) == 2]
+    ok, why = True, ''
+    if not user:
+        raise build.AnalysisBroken('C01.R3b: the fseek of FileAndMemReader::seek not found')
+    if not to_end or not all(fn.cfg.stmt_before((u[0], u[1]), (e[0], e[1])) for u in user for e in to_end):
+        ok, why = False, 'the FILE branch does not look at the end of the file after the caller\'s fseek: fseek accepts a position behind the end and ftell reports it'
+    else:
+        e0 = to_end[0]
+        later = [c for c in fseeks if c not in user and c not in to_end]
+        for c in later:
+            tgt = strip(c[3]['a'][1])
+            gf = guard_facts(fn, c[0], c[2])
+            is_saved = tgt.get('k') == 'DeclRefExpr' and any(st2['s'].get('k') == 'DeclStmt' and any(v['id'] == tgt.get('id') and v.get('init') is not None and short(callee_name(strip(v['init']))) == 'ftell'
+                                                                                                      for v in st2['s']['decls']) for b2, j2, st2 in fn.cfg.stmts())
+            lt = any(f[0] == 'cmp' and ((f[1] == '<' and strip(f[2]).get('id') == tgt.get('id') and short(callee_name(strip(f[3]))) == 'ftell') or
+                                        (f[1] == '>' and strip(f[3]).get('id') == tgt.get('id') and short(callee_name(strip(f[2]))) == 'ftell')) for f in gf)
+            if not (is_saved and lt and fn.cfg.stmt_before((e0[0], e0[1]), (c[0], c[1]))):
+                ok, why = False, 'after looking at the end of the file the FILE branch seeks to %s without the test `target < size`' % show(tgt)
+    mem_ok = False
+    for b, j, st in fn.cfg.stmts():
+        for x in walk(st['s']):
+            ap = assign_parts(x)
+            if ap and mem('m_mp_tell')(strip(ap[0])) and mem('m_mp_size')(strip(ap[1])):
+                gf = guard_facts(fn, b, st)
+                if any(f[0] == 'cmp' and f[1] in ('>', '>=') and mem('m_mp_tell')(strip(f[2])) and mem('m_mp_size')(strip(f[3])) for f in gf):
+                    mem_ok = True
+    if ok and not mem_ok:
+        ok, why = False, 'the memory branch does not clamp m_mp_tell to m_mp_size'
+    res = (ok, why or 'both branches leave the cursor at or before the end of the data', fn.loc)
+    _seek_clamp_cache[facts.view] = res
+    return res
+
+
 def r3b(facts):
     """allocation sizes that are unsigned differences A - B: the difference must not wrap.  Accepted: A = tell() taken after a seek to END
     in the same block and B a local whose only definition is an earlier tell() of that block (seek clamps the cursor to the file size);
@@ -565,6 +618,8 @@ def r3b(facts):
     function (the converter's own dstsize - dstrem accounting) are outside this rule."""
     out = []
     n = 0
+    clamp_ok, clamp_why, clamp_loc = seek_clamps(facts)
+    out.append(Obl('C01.R3b', 'FileAndMemReader::seek', 'the cursor never stays behind the end of the data', clamp_loc, 'discharged' if clamp_ok else 'finding', why=clamp_why))
     def is_tell(e):
         e = strip(e)
         return e is not None and 'callee' in e and short(callee_name(e)) == 'tell'
@@ -597,6 +652,7 @@ def r3b(facts):
                 for sub in subs:
                     l, r = strip(sub['l']), strip(sub['r'])
                     ok = None
+                    idiom_broken = None
                     if is_tell(l) and r.get('k') == 'DeclRefExpr' and r.get('id') in defs and all(is_tell(d) for d in defs[r['id']]):
                         # rest-of-file idiom: B = tell(); seek(0, END); A = tell() in one block, B defined before the seek
                         blk = fn.cfg.blocks[b]['stmts']
@@ -621,12 +677,17 @@ def r3b(facts):
                                         bad = True
                             if any(w is sub for w in walk(s2['s'])):
                                 break
-                        if seen_def and seen_end and not bad:
-                            ok = 'rest-of-file idiom: %s = tell(); seek(0, END); tell() - %s' % (show(r), show(r))
+                        if seen_def and seen_end and not bad and clamp_ok:
+                            ok = 'rest-of-file idiom: %s = tell(); seek(0, END); tell() - %s (every seek clamps the cursor to the size)' % (show(r), show(r))
+                        elif seen_def and seen_end and not bad:
+                            idiom_broken = 'the rest-of-file length tell() - %s wraps around when %s lies behind the end of the file: %s' % (show(r), show(r), clamp_why)
                     if ok is None and 'callee' in l and short(callee_name(l)) == 'fileSize' and r.get('k') == 'DeclRefExpr' and r.get('id') in defs and \
                             all(is_tell(d) for d in defs[r['id']]):
                         # fileSize() - <earlier tell()>: the reader clamps its cursor to the file size (C01.R1 reader guard)
-                        ok = 'fileSize() minus an earlier tell(): the cursor never exceeds the file size'
+                        if clamp_ok:
+                            ok = 'fileSize() minus an earlier tell(): the cursor never exceeds the file size'
+                        else:
+                            idiom_broken = 'fileSize() - %s wraps around when the cursor lies behind the end of the file: %s' % (show(r), clamp_why)
                     if ok is None:
                         # find the statement holding the subtraction to take its guard facts
                         for b2, j2, st2 in fn.cfg.stmts():
@@ -654,7 +715,7 @@ def r3b(facts):
                             continue
                     n += 1
                     out.append(Obl('C01.R3b', fn.name, '%s(%s) <- %s' % (cn, show(size)[:30], show(sub)[:50]), st['loc'], 'discharged' if ok else 'finding',
-                                   why=ok or 'the size is the unsigned difference %s of file-derived values with no comparison of the operands before it: when %s exceeds %s the '
+                                   why=ok or idiom_broken or 'the size is the unsigned difference %s of file-derived values with no comparison of the operands before it: when %s exceeds %s the '
                                    'difference wraps to ~2^64 and the allocation throws length_error/bad_alloc through the C API' % (show(sub)[:60], show(r)[:30], show(l)[:30])))
     if n < 2 and facts.view not in ('noSEQ',):
         raise build.AnalysisBroken('C01.R3b: fewer than 2 difference-sized allocations found (expected the rest-of-file sizes of the CMF/IMF/RSXX loaders)')
@@ -1235,6 +1296,35 @@ def r8(facts):
                             '%s keeps iterators into the track data dropped here: after a failed load, rewind/play walk freed list nodes' % h)))
     if n < 3:
         raise build.AnalysisBroken('C01.R8: no function dropping m_trackData found')
+    # (a2) the end-of-song flag is the only thing that keeps processEvents() away from position iterators that were reset with the
+    # track data: it may be cleared only by a function that has just put a whole position in place (the time-line builder, which
+    # fills the positions of the new song, and rewind(), which restores the saved begin position - emptied with the track data,
+    # rule (a)).  A loader that clears it before the data is accepted re-arms the iterators a refused earlier load has left behind.
+    na = 0
+    for fn in facts.all_fns():
+        if fn.relfile() not in FILES or fn.tree is None or fn.d.get('ctor'):
+            continue
+        for b, j, st in fn.cfg.stmts():
+            for x in walk(st['s']):
+                ap = assign_parts(x)
+                if not (ap and mem('m_atEnd')(strip(ap[0])) and const_of(ap[1]) == 0):
+                    continue
+                na += 1
+                placed = None
+                for b2, j2, st2 in fn.cfg.stmts():
+                    for y in walk(st2['s']):
+                        ap2 = assign_parts(y)
+                        if not ap2:
+                            continue
+                        l2, r2 = strip(ap2[0]), strip(ap2[1])
+                        if l2.get('k') == 'MemberExpr' and short(l2['n']) in holders and r2.get('k') == 'MemberExpr' and short(r2['n']) in holders:
+                            placed = show(y)
+                out.append(Obl('C01.R8', fn.name, 'm_atEnd = false', st['loc'], 'discharged' if placed else 'finding',
+                               why='the function puts a whole position in place (%s)' % placed[:60] if placed else
+                               'the end-of-song flag is cleared by a function that does not set up the playing position: after a load that was refused while its tracks were being built '
+                               '(default-constructed position iterators) this store lets processEvents() dereference them'))
+    if na < 2:
+        raise build.AnalysisBroken('C01.R8: stores m_atEnd = false not found (%d)' % na)
     # (b) loop-stack level
     m = 0
     for fn in facts.all_fns():
@@ -1534,6 +1624,255 @@ def r10(facts):
         raise build.AnalysisBroken('C01.R10: only %d event payload subscripts found' % n)
     return out
 
+
+
+# ------------------------------------------------------------------------------------------------ R12 pointers that walk a local array
+def _loops_in(t, acc):
+    if isinstance(t, dict):
+        if t.get('k') in ('WhileStmt', 'ForStmt', 'DoStmt'):
+            acc.append(t)
+        for k2 in ('body', 'then', 'else', 'sub', 'init'):
+            v = t.get(k2)
+            if isinstance(v, (dict, list)):
+                _loops_in(v, acc)
+    elif isinstance(t, list):
+        for y in t:
+            _loops_in(y, acc)
+    return acc
+
+
+def shift_loop_trips(fn, lp):
+    """upper bound of the trip count of a loop whose progress is a right shift of one integer variable, or None:
+      while((v >>= k) > 0) ..                      any W-bit v (a negative value leaves at once): ceil(W / k) rounds
+      while((v >>= k)) .. / while(v) { v >>= k }   unsigned W-bit v only: ceil(W / k) rounds (a negative value never becomes 0)
+      for(;;) { ..; if(v & M) v >>= k; else break; }   unsigned W-bit v only: ceil(W / k) + 1 rounds - with a signed v the sign
+                                                    bit is shifted in for ever once it is set and the loop does not end"""
+    def shift_of(e):
+        for y in walk(e):
+            if isinstance(y, dict) and y.get('k') in ('CompoundAssignOperator', 'BinaryOperator') and y.get('op') == '>>=' and (const_of(y.get('r')) or 0) > 0 \
+                    and strip(y['l']).get('k') == 'DeclRefExpr':
+                return strip(y['l']), const_of(y['r'])
+        return None
+    def bits(v):
+        t = v.get('t') or {}
+        return t.get('w'), bool(t.get('u'))
+    cond = lp.get('cond')
+    c = strip(cond) if cond is not None else None
+    always = c is None or const_of(c) not in (None, 0)
+    if not always:
+        sh = shift_of(c)
+        if sh:
+            v, k = sh
+            w, uns = bits(v)
+            cs = strip(c)
+            positive_test = cs.get('k') == 'BinaryOperator' and cs.get('op') == '>' and const_of(cs.get('r')) == 0
+            if w and (uns or positive_test):
+                return -(-w // k), 'the value shifted right by %d in the loop condition reaches 0 after %d rounds' % (k, -(-w // k))
+            return None, 'the signed value `%s` is shifted right in the loop condition and tested for non-zero: a negative value becomes -1 and stays there' % short(v['n'])
+        return None, None
+    # for(;;) with `if(v & M) v >>= k; else break;` as the only way out
+    body = lp.get('body')
+    items = body.get('body', []) if isinstance(body, dict) and body.get('k') == 'CompoundStmt' else [body]
+    for it in items:
+        if isinstance(it, dict) and it.get('k') == 'IfStmt':
+            th, el = it.get('then'), it.get('else')
+            def only(t_, kind):
+                t_ = t_['body'][0] if isinstance(t_, dict) and t_.get('k') == 'CompoundStmt' and len(t_.get('body', [])) == 1 else t_
+                return isinstance(t_, dict) and (t_.get('k') == kind if kind else True) and t_
+            for shift_arm, exit_arm, pol in ((th, el, True), (el, th, False)):
+                ex = only(exit_arm, 'BreakStmt')
+                sa = only(shift_arm, None)
+                sh = shift_of(sa) if sa else None
+                if ex and sh:
+                    v, k = sh
+                    w, uns = bits(v)
+                    tested = any(isinstance(y, dict) and y.get('k') == 'DeclRefExpr' and y.get('id') == v.get('id') for y in walk(it.get('cond')))
+                    if tested and w and uns:
+                        return -(-w // k) + 1, 'the unsigned %d-bit value `%s` is shifted right by %d per round: the tested bits are 0 after %d rounds' % (w, short(v['n']), k, -(-w // k))
+                    if tested:
+                        return None, 'the loop ends only when bits of the signed value `%s` are clear, and `%s >>= %d` shifts the sign bit in: once the value is negative (a fifth 7-bit group) the loop never ends and keeps writing' % (short(v['n']), short(v['n']), k)
+    return None, None
+
+
+def r12(facts):
+    """a pointer that is set to a fixed-size local array and then advanced (`*p++ = x`, `p += n`, `p += writer(.., p)`) stays inside the
+    array: the greatest advance over all paths of the scope is at most the extent.  A callee that receives the pointer is summarised
+    by the greatest number of bytes it writes, which needs a bound on the trip count of its loops (shift_loop_trips)."""
+    out = []
+    n = 0
+    def ptr_steps(e, pid):
+        """number of unit advances of pointer pid in expression e; (constant steps, [calls that receive pid])"""
+        steps, calls = 0, []
+        for y in walk(e):
+            if not isinstance(y, dict):
+                continue
+            if is_incdec(y) and y.get('op') == '++' and strip(y['e']).get('id') == pid:
+                steps += 1
+            ap = assign_parts(y)
+            if ap and ap[2] == '+=' and strip(ap[0]).get('id') == pid:
+                c = const_of(ap[1])
+                if c is not None:
+                    steps += c
+                else:
+                    cl = [z for z in walk(ap[1]) if isinstance(z, dict) and 'callee' in z]
+                    calls += cl if cl else [None]
+        return steps, calls
+    def writer_summary(cf, pi):
+        """greatest number of advances of the pi-th (pointer) parameter over all paths of cf, or (None, reason)"""
+        pid = cf.params[pi]['id']
+        def adv(t):
+            if t is None:
+                return 0, None
+            if isinstance(t, list):
+                tot = 0
+                for y in t:
+                    a, why = adv(y)
+                    if a is None:
+                        return None, why
+                    tot += a
+                return tot, None
+            k = t.get('k')
+            if k == 'CompoundStmt':
+                return adv(t.get('body'))
+            if k == 'IfStmt':
+                c, _ = ptr_steps(t.get('cond'), pid)
+                a, w1 = adv(t.get('then'))
+                b, w2 = adv(t.get('else'))
+                if a is None or b is None:
+                    return None, w1 or w2
+                return c + max(a, b), None
+            if k in ('WhileStmt', 'ForStmt', 'DoStmt'):
+                inner, why = adv(t.get('body'))
+                ci, _ = ptr_steps([t.get('cond'), t.get('inc')], pid)
+                if inner is None:
+                    return None, why
+                if inner + ci == 0:
+                    return 0, None
+                trips, why = shift_loop_trips(cf, t)
+                if trips is None:
+                    return None, why or 'a loop of %s advances the pointer and has no recognised bound on its trip count' % cf.name
+                return trips * (inner + ci), None
+            st_, cl = ptr_steps(t, pid)
+            if cl:
+                return None, '%s hands the pointer on' % cf.name
+            return st_, None
+        return adv(cf.tree)
+    for fn in facts.all_fns():
+        if fn.relfile() not in FILES or fn.tree is None:
+            continue
+        arrays = {}
+        ptrs = {}
+        for b, j, st in fn.cfg.stmts():
+            if st['s'].get('k') == 'DeclStmt':
+                for v in st['s']['decls']:
+                    t = v.get('t') or {}
+                    if t.get('arr') and (t.get('el') or {}).get('sz') == 1:
+                        arrays[v['id']] = (t['arr'], v['n'])
+                    if t.get('p') and v.get('init') is not None and strip(v['init']).get('k') == 'DeclRefExpr' and strip(v['init']).get('id') in arrays:
+                        ptrs[v['id']] = (strip(v['init'])['id'], v['n'], st['loc'])
+        for pid, (aid, pname, loc) in ptrs.items():
+            # the scope: the compound statement that declares the pointer
+            scope = None
+            def find(t):
+                nonlocal scope
+                if isinstance(t, dict):
+                    if t.get('k') == 'CompoundStmt':
+                        for y in t.get('body') or []:
+                            if isinstance(y, dict) and y.get('k') == 'DeclStmt' and any(v['id'] == pid for v in y.get('decls', [])):
+                                scope = t
+                    for k2 in ('body', 'then', 'else', 'sub', 'init'):
+                        v = t.get(k2)
+                        if isinstance(v, (dict, list)):
+                            find(v)
+                elif isinstance(t, list):
+                    for y in t:
+                        find(y)
+            find(fn.tree)
+            if scope is None:
+                continue
+            n += 1
+            why_bad = None
+            def adv(t):
+                nonlocal why_bad
+                if t is None:
+                    return 0
+                if isinstance(t, list):
+                    tot = 0
+                    for y in t:
+                        a = adv(y)
+                        if a is None:
+                            return None
+                        tot += a
+                    return tot
+                k = t.get('k')
+                if k == 'CompoundStmt':
+                    return adv(t.get('body'))
+                if k == 'IfStmt':
+                    a, b2 = adv(t.get('then')), adv(t.get('else'))
+                    c = adv_expr(t.get('cond'))
+                    if a is None or b2 is None or c is None:
+                        return None
+                    return c + max(a, b2)
+                if k == 'SwitchStmt':
+                    best = 0
+                    for node, arms, default in dispatch_arms_of(t):
+                        for stmts in list(arms.values()) + [default]:
+                            a = adv(stmts)
+                            if a is None:
+                                return None
+                            best = max(best, a)
+                    return best
+                if k in ('WhileStmt', 'ForStmt', 'DoStmt'):
+                    a = adv(t.get('body'))
+                    c = adv_expr([t.get('cond'), t.get('inc')])
+                    if a is None or c is None:
+                        return None
+                    if a + c == 0:
+                        return 0
+                    why_bad = 'a loop advances `%s` without a recognised bound' % pname
+                    return None
+                return adv_expr(t)
+            def adv_expr(e):
+                nonlocal why_bad
+                st_, cl = ptr_steps(e, pid)
+                for c in cl:
+                    if c is None:
+                        why_bad = '`%s` is advanced by a value that is not a constant' % pname
+                        return None
+                    cfl = facts.fns.get(callee_name(c))
+                    pi = [i for i, a in enumerate(c.get('a', [])) if strip(a).get('id') == pid]
+                    if not cfl or cfl[0].tree is None or len(pi) != 1:
+                        why_bad = '`%s` is advanced by the result of %s, which cannot be summarised' % (pname, short(callee_name(c)))
+                        return None
+                    w, why = writer_summary(cfl[0], pi[0])
+                    if w is None:
+                        why_bad = '%s writes through `%s` without a bound: %s' % (short(callee_name(c)), pname, why)
+                        return None
+                    st_ += w
+                # the pointer handed to a callee without using its result as the advance: the callee writes, the pointer stays
+                for y in walk(e):
+                    if isinstance(y, dict) and 'callee' in y and not any(y is c for c in cl) and any(strip(a).get('id') == pid for a in y.get('a', [])) \
+                            and short(callee_name(y)) not in ('memcpy',):
+                        cfl = facts.fns.get(callee_name(y))
+                        pi = [i for i, a in enumerate(y.get('a', [])) if strip(a).get('id') == pid]
+                        if cfl and cfl[0].tree is not None and len(pi) == 1:
+                            w, why = writer_summary(cfl[0], pi[0])
+                            if w is None:
+                                why_bad = '%s writes through `%s` without a bound: %s' % (short(callee_name(y)), pname, why)
+                                return None
+                return st_
+            def dispatch_arms_of(sw):
+                return [d for d in dispatch_arms(fn, lambda e: True) if d[0] is sw]
+            total = adv(scope.get('body'))
+            ext = arrays[aid][0]
+            ok = total is not None and total <= ext
+            out.append(Obl('C01.R12', fn.name, '%s walks %s[%d]' % (pname, arrays[aid][1], ext), loc, 'discharged' if ok else 'finding',
+                           why='at most %d byte(s) are written per pass of the scope' % total if ok else
+                           ('the pointer can advance by %d, the array holds %d' % (total, ext) if total is not None else
+                            'the advance of the pointer is not bounded (stack buffer overrun): %s' % why_bad)))
+    if n < 1:
+        raise build.AnalysisBroken('C01.R12: no pointer walking a local byte array found in the converter files')
+    return out
 
 
 # ------------------------------------------------------------------------------------------------ R11 %s arguments
